@@ -1,52 +1,80 @@
 #!/usr/bin/env python3
 """ast2coq.py — regenerates coq/gen/SupportGen.v from the C++ source on every run.
 
-A second, independent tie between /repo/include/bspline/support/Support.h and the hand-written
-Gallina model coq/Support.v: clang (not a regular expression) parses the header, this script walks
-the JSON AST of the integer-only member functions of `Support<double>` and prints, for each of them,
-a Gallina definition with EXACTLY the C++ semantics of size_t (`+` is `wadd`, `-` is `wsub`, both
-modulo 2^64).  coq/Proofs_SupportGen.v then proves that every generated definition coincides with
-the hand-written model function; an edit of Support.h that changes the meaning of one of these
-functions changes the generated text and breaks that proof.
+A second, independent tie between the headers of /repo and the hand-written Gallina model
+(coq/Support.v, coq/Spline.v): clang (not a regular expression) parses the headers, this script walks
+the JSON AST of the integer-only (index) logic of `Support<double>`, `Grid<double>::at` and
+`Spline<double,2>::checkValidity` and prints, for each function, a Gallina definition with EXACTLY the
+C++ semantics of size_t (`+` is `wadd`, `-` is `wsub`, both modulo 2^64).  coq/Proofs_SupportGen.v
+then proves that every generated definition coincides with the hand-written model function; an edit
+of a header that changes the meaning of one of these functions changes the generated text and breaks
+that proof.
 
     clang++ -std=c++17 -fsyntax-only -I$VERIF_REPO/include -Xclang -ast-dump=json \
-            -Xclang -ast-dump-filter=Support tu.cpp
+            -Xclang -ast-dump-filter=<Support|Grid|Spline> tu.cpp
 
-with tu.cpp = `#include <bspline/support/Support.h>` + an explicit instantiation of Support<double>.
-With a filter clang prints several top-level JSON objects; the one used is the
-ClassTemplateSpecializationDecl (the `double` instantiation: no dependent types, member calls
-resolved).
+with tu.cpp = `#include <bspline/Spline.h>` + explicit instantiations of Grid<double>, Support<double>
+and Spline<double, 2> (one clang run per class).  With a filter clang prints several top-level JSON
+objects; the one used is the ClassTemplateSpecializationDecl (the instantiation: no dependent types,
+member calls resolved).
 
-Translated (Gallina parameters `gsize start stop : N` stand for `_grid.size()`, `_startIndex`,
-`_endIndex`, followed by the function's own parameters):
-    size empty containsIntervals relativeFromAbsolute intervalIndexFromAbsolute
-    absoluteFromRelative numberOfIntervals
-    checkValidity  -> `valid : bool` (true iff the function does NOT throw) and, as a bonus,
-                      `checkValidity : outcome unit`
-    at             -> `at_guard : bool` (the condition of its `if (...) throw`), and, as a bonus,
-                      `at_throw : err` (the code thrown) and `at_index : N` (the argument of the
-                      final `_grid.at(...)`)
+Gallina parameters: `gsize start stop : N` stand for `_grid.size()`, `_startIndex`, `_endIndex` of the
+object, followed by the function's own integer parameters; a second operand `const Support &s`
+contributes `start2 stop2 : N` (its indices) and `same_grid : bool` (the value of `hasSameGrid(s)`);
+a `std::vector` parameter contributes `ncoefs : N` (its `size()`).
+
+Translated:
+  Support:  size empty containsIntervals relativeFromAbsolute intervalIndexFromAbsolute
+            absoluteFromRelative numberOfIntervals
+            checkValidity    -> `valid : bool` (true iff the function does NOT throw) and
+                                `checkValidity : outcome unit`
+            at               -> `at_guard : bool` (the condition of its `if (...) throw`),
+                                `at_throw : err` (the code thrown), `at_index : N` (the argument of
+                                the final `_grid.at(...)`)
+            operator==       -> `eq : bool`
+            createEmpty      -> `createEmpty : gres`
+            calcUnion, calcIntersection -> `gres`, the INDEX logic of the result:
+                 GThrow e | GEmpty (createEmpty(_grid)) | GThis (return *this) | GOther (return s)
+                 | GCtor a b (Support(_grid, a, b), the validating constructor)
+  Grid:     at               -> `grid_at_guard : bool`, `grid_at_throw : err`  (`size()` is `gsize`,
+                                checked to be `return _data->size();`; the final `return (*_data)[i]`
+                                is not integer logic and is only checked to be a return statement)
+  Spline:   checkValidity(support, coefficients) -> `spline_valid : bool` and
+                                `spline_checkValidity : outcome unit`
 
 Anything the translator does not understand raises Unsupported (AST kind + source line) and the
 script exits non-zero; nothing is ever skipped silently, with one exception that is checked for
-shape: `do {} while (false)` (the expansion of DURING_TEST_CHECK_VALIDITY() outside the tests).
+shape: `do {} while (false)` (the expansion of DURING_TEST_CHECK_VALIDITY*() outside the tests).
 
 Python 3, standard library only.  Deterministic and idempotent; writes the output only if changed.
 Options: --print (echo the generated Gallina), --out DIR (write DIR/SupportGen.v instead).
 """
 import json
 import os
+import re
 import shutil
 import subprocess
 import sys
 import tempfile
 
-HEADER_REL = os.path.join("bspline", "support", "Support.h")
-CLASS_NAME = "Support"
 DEFAULT_OUT = os.path.join(os.path.dirname(os.path.dirname(os.path.abspath(__file__))), "coq", "gen")
 OUT_NAME = "SupportGen.v"
 
-# C++ member function -> generated Gallina name, in output order (callees are pulled in earlier).
+TU = ("#include <bspline/Spline.h>\n"
+      "template class bspline::support::Grid<double>;\n"
+      "template class bspline::support::Support<double>;\n"
+      "template class bspline::Spline<double, 2>;\n")
+
+# class -> (header relative to include/, expected template arguments)
+CLASSES = {
+    "Support": (os.path.join("bspline", "support", "Support.h"), ["double"]),
+    "Grid": (os.path.join("bspline", "support", "Grid.h"), ["double"]),
+    "Spline": (os.path.join("bspline", "Spline.h"), ["double", 2]),
+}
+SUPPORT_TYPES = ("bspline::support::Support<double>", "Support<double>")
+GRID_TYPES = ("bspline::support::Grid<double>", "Grid<double>")
+
+# Support member function -> generated Gallina name, in output order (callees are pulled in earlier).
 PLAIN = [
     ("size", "size"),
     ("empty", "empty"),
@@ -56,10 +84,21 @@ PLAIN = [
     ("absoluteFromRelative", "absoluteFromRelative"),
     ("numberOfIntervals", "numberOfIntervals"),
 ]
-FIELDS = {"_startIndex": "start", "_endIndex": "stop"}
+BINARY = [
+    ("operator==", "eq"),
+    ("createEmpty", "createEmpty"),
+    ("calcUnion", "calcUnion"),
+    ("calcIntersection", "calcIntersection"),
+]
+GNAMES = dict(PLAIN + BINARY)
+FIELDS = {"_startIndex": ("start", "start2"), "_endIndex": ("stop", "stop2")}
 GRID_FIELD = "_grid"
 ERR_CODES = ("DIFFERING_GRIDS", "INCONSISTENT_DATA", "MISSING_DATA", "INVALID_ACCESS", "UNDETERMINED")
 EXC_TYPE = "bspline::exceptions::BSplineException"
+GRES = "Inductive gres := GThrow (e : err) | GEmpty | GThis | GOther | GCtor (a b : N)."
+
+EXPECTED = [g for _, g in PLAIN] + ["valid", "checkValidity", "at_guard", "at_throw", "at_index"] + \
+           [g for _, g in BINARY] + ["grid_at_guard", "grid_at_throw", "spline_valid", "spline_checkValidity"]
 
 RESERVED = {
     # Gallina keywords
@@ -67,10 +106,11 @@ RESERVED = {
     "IF", "in", "let", "match", "mod", "Prop", "return", "Set", "then", "Type", "using", "where",
     "with", "SProp",
     # names the generated text uses
-    "gsize", "start", "stop", "wadd", "wsub", "W", "N", "bool", "unit", "option", "outcome", "err",
+    "gsize", "start", "stop", "start2", "stop2", "same_grid", "ncoefs",
+    "wadd", "wsub", "W", "N", "bool", "unit", "option", "outcome", "err",
     "Some", "None", "Ok", "Throw", "UB", "andb", "orb", "negb", "true", "false", "tt", "G",
-    "valid", "checkValidity", "at_guard", "at_throw", "at_index",
-} | {g for _, g in PLAIN} | set(ERR_CODES)
+    "gres", "GThrow", "GEmpty", "GThis", "GOther", "GCtor",
+} | set(EXPECTED) | set(ERR_CODES)
 
 SIZE_T = {"unsigned long", "size_t", "std::size_t"}
 
@@ -83,27 +123,30 @@ class Unsupported(Exception):
 # clang
 # --------------------------------------------------------------------------------------------
 def run_clang(repo):
+    """one run per class (same translation unit); returns {class: stdout}"""
     inc = os.path.join(repo, "include")
-    hdr = os.path.join(inc, HEADER_REL)
-    if not os.path.isfile(hdr):
-        raise Unsupported("header not found: %s" % hdr)
+    for cls, (rel, _) in sorted(CLASSES.items()):
+        if not os.path.isfile(os.path.join(inc, rel)):
+            raise Unsupported("header not found: %s" % os.path.join(inc, rel))
     os.makedirs("/var/tmp", exist_ok=True)
     tmp = tempfile.mkdtemp(prefix="ast2coq.", dir="/var/tmp")
     try:
         tu = os.path.join(tmp, "tu.cpp")
         with open(tu, "w") as f:
-            f.write("#include <bspline/support/Support.h>\n"
-                    "template class bspline::support::Support<double>;\n")
-        cmd = ["clang++", "-std=c++17", "-fsyntax-only", "-I" + inc,
-               "-Xclang", "-ast-dump=json", "-Xclang", "-ast-dump-filter=" + CLASS_NAME, tu]
-        try:
-            p = subprocess.run(cmd, stdout=subprocess.PIPE, stderr=subprocess.PIPE,
-                               universal_newlines=True, cwd=tmp)
-        except OSError as e:
-            raise Unsupported("cannot run clang++: %s" % e)
-        if p.returncode != 0:
-            raise Unsupported("clang++ failed (exit %d):\n%s" % (p.returncode, p.stderr.strip()))
-        return p.stdout, hdr
+            f.write(TU)
+        out = {}
+        for cls in sorted(CLASSES):
+            cmd = ["clang++", "-std=c++17", "-fsyntax-only", "-I" + inc,
+                   "-Xclang", "-ast-dump=json", "-Xclang", "-ast-dump-filter=" + cls, tu]
+            try:
+                p = subprocess.run(cmd, stdout=subprocess.PIPE, stderr=subprocess.PIPE,
+                                   universal_newlines=True, cwd=tmp)
+            except OSError as e:
+                raise Unsupported("cannot run clang++: %s" % e)
+            if p.returncode != 0:
+                raise Unsupported("clang++ failed (exit %d):\n%s" % (p.returncode, p.stderr.strip()))
+            out[cls] = p.stdout
+        return out
     finally:
         shutil.rmtree(tmp, ignore_errors=True)
 
@@ -124,18 +167,25 @@ def parse_objects(text):
         objs.append(o)
 
 
-def find_specialization(objs):
+def find_specialization(objs, cls, want_args):
     found = []
+
+    def args_of(n):
+        r = []
+        for c in n.get("inner", []):
+            if c.get("kind") == "TemplateArgument":
+                if "value" in c:
+                    r.append(c["value"])
+                else:
+                    r.append((c.get("type") or {}).get("qualType"))
+        return r
 
     def walk(n, top):
         if not isinstance(n, dict):
             return
-        if n.get("kind") == "ClassTemplateSpecializationDecl" and n.get("name") == CLASS_NAME:
-            inner = n.get("inner", [])
-            has_methods = any(c.get("kind") == "CXXMethodDecl" for c in inner)
-            is_double = any(c.get("kind") == "TemplateArgument"
-                            and c.get("type", {}).get("qualType") == "double" for c in inner)
-            if has_methods and is_double:
+        if n.get("kind") == "ClassTemplateSpecializationDecl" and n.get("name") == cls:
+            has_methods = any(c.get("kind") == "CXXMethodDecl" for c in n.get("inner", []))
+            if has_methods and args_of(n) == want_args:
                 found.append(n)
                 return
         if top or n.get("kind") in ("ClassTemplateDecl", "NamespaceDecl"):
@@ -144,12 +194,12 @@ def find_specialization(objs):
 
     for o in objs:
         walk(o, True)
+    what = "%s<%s>" % (cls, ", ".join(str(a) for a in want_args))
     if not found:
-        raise Unsupported("no ClassTemplateSpecializationDecl %s<double> with member definitions in "
-                          "clang's output (%d top-level objects)" % (CLASS_NAME, len(objs)))
-    ids = {n.get("id") for n in found}
-    if len(ids) != 1:
-        raise Unsupported("several distinct %s<double> specializations in clang's output" % CLASS_NAME)
+        raise Unsupported("no ClassTemplateSpecializationDecl %s with member definitions in "
+                          "clang's output (%d top-level objects)" % (what, len(objs)))
+    if len({n.get("id") for n in found}) != 1:
+        raise Unsupported("several distinct %s specializations in clang's output" % what)
     return found[0]
 
 
@@ -171,7 +221,7 @@ def inline(e):
     if k == "app":
         return e[1] + " " + " ".join(arg(a) for a in e[2])
     if k == "infix":
-        return "(%s %s %s)" % (operand(e[2]), e[1], operand(e[3]))
+        return "(%s %s %s)" % (inline(e[2]), e[1], inline(e[3]))
     if k == "if":
         return "(if %s then %s else %s)" % (inline(e[1]), inline(e[2]), inline(e[3]))
     if k == "let":
@@ -181,10 +231,6 @@ def inline(e):
 
 def arg(e):
     return inline(e) if e[0] in ("atom", "infix", "if", "let") else "(" + inline(e) + ")"
-
-
-def operand(e):
-    return inline(e)  # application binds tighter than any infix; if/let/infix carry their own parens
 
 
 def block(e, ind):
@@ -207,33 +253,46 @@ def branch(e, ind):
 # --------------------------------------------------------------------------------------------
 # translation
 # --------------------------------------------------------------------------------------------
-class Fn:
-    """a translated member function"""
-    def __init__(self, cname, gname, params, kind, throws, body, node):
-        self.cname, self.gname, self.params, self.kind = cname, gname, params, kind
-        self.throws, self.body, self.node = throws, body, node
-
-
-BASE_TY = {"N": "N", "bool": "bool", "optN": "option N", "unit": "unit", "err": "err"}
-
-
-class Translator:
-    def __init__(self, spec, hdr_path):
-        self.spec = spec
-        self.hdr_path = hdr_path
+class ClassCtx:
+    def __init__(self, name, spec, hdr_path, rel):
+        self.name, self.spec, self.hdr_path, self.rel = name, spec, hdr_path, rel
         with open(hdr_path, "rb") as f:
             self.src = f.read()
-        self.methods = {}
+        self.methods, self.fields = {}, {}
         for c in spec.get("inner", []):
             if c.get("kind") == "CXXMethodDecl":
                 self.methods.setdefault(c.get("name"), []).append(c)
-        self.fields = {}
-        for c in spec.get("inner", []):
-            if c.get("kind") == "FieldDecl":
+            elif c.get("kind") == "FieldDecl":
                 self.fields[c.get("id")] = c.get("name")
-        self.done = {}        # C++ name -> Fn
+
+
+class Fn:
+    """a translated function"""
+    def __init__(self, C, cname, gname, binders, params, kind, throws, body, node,
+                 plain=False, uses_gsize=False):
+        self.C, self.cname, self.gname, self.binders, self.params = C, cname, gname, binders, params
+        self.kind, self.throws, self.body, self.node = kind, throws, body, node
+        self.plain, self.uses_gsize = plain, uses_gsize
+
+
+BASE_TY = {"N": "N", "bool": "bool", "optN": "option N", "unit": "unit", "err": "err", "sup": "gres"}
+OBJ3 = [("gsize", "N"), ("start", "N"), ("stop", "N")]
+
+
+class Translator:
+    def __init__(self, ctxs):
+        self.ctxs = ctxs
+        self.done = {}        # (class, C++ name) -> Fn
         self.order = []       # Fn in definition order (callees first)
-        self.active = []      # cycle detection
+        self.active = []      # [(ClassCtx, C++ name)]: cycle detection, diagnostics, current class
+        self.gs = []          # stack of flags: does the function being translated read gsize?
+        self.checked = set()
+
+    @property
+    def C(self):
+        if not self.active:
+            raise AssertionError("no current class")
+        return self.active[-1][0]
 
     # ---- diagnostics -------------------------------------------------------------------
     def offset_of(self, n):
@@ -244,31 +303,34 @@ class Translator:
 
     def line_of(self, n):
         off = self.offset_of(n)
-        if off is None:
+        if off is None or not self.active:
             return "?"
-        return self.src.count(b"\n", 0, off) + 1
+        return self.C.src.count(b"\n", 0, off) + 1
 
     def fail(self, n, what=None):
         kind = n.get("kind", "?") if isinstance(n, dict) else "?"
         msg = "unsupported AST node %s" % kind
         if what:
             msg += " (%s)" % what
-        msg += " at %s:%s" % (HEADER_REL, self.line_of(n) if isinstance(n, dict) else "?")
         if self.active:
-            msg += " in %s::%s" % (CLASS_NAME, self.active[-1])
+            msg += " at %s:%s in %s::%s" % (self.C.rel, self.line_of(n) if isinstance(n, dict) else "?",
+                                            self.C.name, self.active[-1][1])
         raise Unsupported(msg)
 
     # ---- types -------------------------------------------------------------------------
     @staticmethod
     def tyname(n):
         t = n.get("type") or {}
-        q = t.get("desugaredQualType", t.get("qualType", ""))
-        q = q.strip()
-        while q.startswith("const "):
-            q = q[6:].strip()
-        if q.endswith(" const"):
-            q = q[:-6].strip()
-        return q
+        q = t.get("desugaredQualType", t.get("qualType", "")).strip()
+        while True:
+            if q.startswith("const "):
+                q = q[6:].strip()
+            elif q.endswith(" const"):
+                q = q[:-6].strip()
+            elif q.endswith("&"):
+                q = q[:-1].strip()
+            else:
+                return q
 
     def kind_of_type(self, n):
         q = self.tyname(n)
@@ -280,13 +342,19 @@ class Translator:
             return "optN"
         if q == "void":
             return "unit"
+        if q in SUPPORT_TYPES:
+            return "sup"
         return None
 
     # ---- methods -----------------------------------------------------------------------
-    def method(self, cname, at=None):
-        ms = self.methods.get(cname, [])
+    def method(self, C, cname, at=None, nparams=None):
+        ms = C.methods.get(cname, [])
+        if nparams is not None:
+            ms = [m for m in ms
+                  if sum(1 for c in m.get("inner", []) if c.get("kind") == "ParmVarDecl") == nparams]
         if len(ms) != 1:
-            msg = "expected exactly one member function %s::%s, found %d" % (CLASS_NAME, cname, len(ms))
+            msg = "expected exactly one member function %s::%s%s, found %d" % (
+                C.name, cname, "" if nparams is None else " with %d parameters" % nparams, len(ms))
             if at is not None:
                 self.fail(at, msg)
             raise Unsupported(msg)
@@ -318,16 +386,45 @@ class Translator:
             raise Unsupported("cannot use C++ identifier %r as a Gallina name" % name)
         return g
 
-    def bind_params(self, params):
-        env, binders = {}, []
+    def bind_params(self, m, params):
+        """env: decl id -> (Gallina name | None, kind); returns env, own N/bool params, all binders"""
+        C = self.C
+        static = m.get("storageClass") == "static"
+        env, own, extra2, extra_vec = {}, [], [], []
+        has_obj = (C.name == "Support" and not static)
         for p in params:
             k = self.kind_of_type(p)
-            if k not in ("N", "bool"):
-                self.fail(p, "parameter of type %r" % self.tyname(p))
-            g = self.mangle(p.get("name", ""), {b for b, _ in binders})
-            env[p["id"]] = (g, k)
-            binders.append((g, k))
-        return env, binders
+            q = self.tyname(p)
+            if k in ("N", "bool"):
+                g = self.mangle(p.get("name", ""), {b for b, _ in own})
+                env[p["id"]] = (g, k)
+                own.append((g, k))
+            elif q in SUPPORT_TYPES and C.name == "Support" and not static:
+                if extra2:
+                    self.fail(p, "more than one Support parameter")
+                env[p["id"]] = (None, "sup2")
+                extra2 = [("start2", "N"), ("stop2", "N"), ("same_grid", "bool")]
+            elif q in SUPPORT_TYPES and C.name == "Spline":
+                if has_obj:
+                    self.fail(p, "more than one Support parameter")
+                env[p["id"]] = (None, "sup1")
+                has_obj = True
+            elif q in GRID_TYPES and C.name == "Support" and static:
+                env[p["id"]] = (None, "grid")
+            elif re.match(r"^std::vector<.*>$", q) and C.name == "Spline":
+                if extra_vec:
+                    self.fail(p, "more than one std::vector parameter")
+                env[p["id"]] = (None, "vec")
+                extra_vec = [("ncoefs", "N")]
+            else:
+                self.fail(p, "parameter of type %r" % q)
+        binders = []
+        if has_obj:
+            binders += OBJ3
+        elif C.name == "Grid":
+            binders += [("gsize", "N")]
+        binders += own + extra2 + extra_vec
+        return env, own, binders
 
     @staticmethod
     def contains_kind(n, kind):
@@ -348,17 +445,31 @@ class Translator:
         for c in n.get("inner", []):
             self.collect_returns(c, acc)
 
-    def translate(self, cname, gname=None, at=None):
-        """translate member function `cname` in full (memoised; callees first)"""
-        if cname in self.done:
-            return self.done[cname]
-        if cname in self.active:
-            raise Unsupported("recursive member functions: %s" % " -> ".join(self.active + [cname]))
-        m = self.method(cname, at)
-        self.active.append(cname)
+    def enter(self, C, cname):
+        if (C, cname) in self.active:
+            raise Unsupported("recursive member functions: %s" %
+                              " -> ".join("%s::%s" % (c.name, f) for c, f in self.active + [(C, cname)]))
+        self.active.append((C, cname))
+        self.gs.append(False)
+
+    def leave(self):
+        self.active.pop()
+        return self.gs.pop()
+
+    def use_gsize(self):
+        self.gs[-1] = True
+        return atom("gsize")
+
+    def translate(self, cls, cname, gname=None, at=None, nparams=None):
+        """translate member function `cname` of class `cls` in full (memoised; callees first)"""
+        C = self.ctxs[cls]
+        if (cls, cname) in self.done:
+            return self.done[(cls, cname)]
+        m = self.method(C, cname, at, nparams)
+        self.enter(C, cname)
         try:
             params, body = self.method_parts(m)
-            env, binders = self.bind_params(params)
+            env, own, binders = self.bind_params(m, params)
             rets = []
             self.collect_returns(body, rets)
             kinds = set()
@@ -381,16 +492,20 @@ class Translator:
             throws = self.contains_kind(body, "CXXThrowExpr")
             ctx = {"kind": kind, "throws": throws, "mode": "fun"}
             term = self.stmts([body], env, ctx)
-            fn = Fn(cname, gname or dict(PLAIN).get(cname) or cname, binders, kind, throws, term, m)
-        finally:
-            self.active.pop()
-        self.done[cname] = fn
+        except Exception:
+            self.leave()
+            raise
+        used = self.leave()
+        plain = (cls == "Support" and binders[:3] == OBJ3 and binders[3:] == own)
+        fn = Fn(C, cname, gname or (GNAMES.get(cname) if cls == "Support" else None) or cname,
+                binders, own, kind, throws and kind != "sup", term, m, plain=plain, uses_gsize=used)
+        self.done[(cls, cname)] = fn
         self.order.append(fn)
         return fn
 
     # ---- statements --------------------------------------------------------------------
     def wrap_value(self, e, ctx):
-        return app("Ok", e) if ctx["throws"] else e
+        return app("Ok", e) if (ctx["throws"] and ctx["kind"] != "sup") else e
 
     def fallthrough(self, ctx, where):
         if ctx["mode"] == "nothrow":
@@ -442,7 +557,7 @@ class Translator:
                 if len(init) != 1 or d.get("init") not in ("c", "call", "list"):
                     self.fail(d, "local variable without a simple initialiser")
                 e = self.expr_as(init[0], vk, env)
-                g = self.mangle(d.get("name", ""), {v[0] for v in env.values()})
+                g = self.mangle(d.get("name", ""), {v[0] for v in env.values() if v[0]})
                 lets.append((g, e))
                 env[d["id"]] = (g, vk)
             body = self.stmts(rest, env, ctx, s)
@@ -474,6 +589,8 @@ class Translator:
                 return self.wrap_value(atom("tt"), ctx)
             if ctx["kind"] == "optN":
                 return self.wrap_value(self.optional(inner[0], env), ctx)
+            if ctx["kind"] == "sup":
+                return self.support_value(inner[0], env)
             if ctx["kind"] == "unit":
                 self.fail(s, "return with a value in a void function")
             return self.wrap_value(self.expr_as(inner[0], ctx["kind"], env), ctx)
@@ -481,7 +598,7 @@ class Translator:
             code = self.throw_code(s)
             if ctx["mode"] == "nothrow":
                 return atom("false")
-            return app("Throw", atom(code))
+            return app("GThrow" if ctx["kind"] == "sup" else "Throw", atom(code))
         self.fail(s, "statement")
 
     def throw_code(self, s):
@@ -498,11 +615,9 @@ class Translator:
             self.fail(n, "rethrow")
         e = inner[0]
         while e.get("kind") in ("CXXFunctionalCastExpr", "CXXBindTemporaryExpr", "MaterializeTemporaryExpr",
-                                "ExprWithCleanups", "ParenExpr", "CXXTemporaryObjectExpr") \
+                                "ExprWithCleanups", "ParenExpr") \
                 or (e.get("kind") == "ImplicitCastExpr"
                     and e.get("castKind") in ("ConstructorConversion", "NoOp")):
-            if e.get("kind") == "CXXTemporaryObjectExpr":
-                break
             if len(e.get("inner", [])) != 1:
                 self.fail(e)
             e = e["inner"][0]
@@ -519,6 +634,119 @@ class Translator:
         if code not in ERR_CODES:
             self.fail(a, "unknown error code %r" % code)
         return code
+
+    # ---- objects -----------------------------------------------------------------------
+    def object_of(self, n, env):
+        """which modelled object does the expression denote?
+           sup1 (gsize/start/stop) | sup2 (start2/stop2) | vec (ncoefs) | grid (parameter of a static
+           member) | gridfield (this->_grid) | gridthis (this, inside Grid) | None"""
+        k = n.get("kind")
+        if k == "ParenExpr" or (k == "ImplicitCastExpr" and n.get("castKind") == "NoOp"):
+            return self.object_of(self.only_child(n), env)
+        if k == "CXXThisExpr":
+            return {"Support": "sup1", "Grid": "gridthis"}.get(self.C.name)
+        if k == "UnaryOperator" and n.get("opcode") == "*":
+            c = self.only_child(n)
+            if c.get("kind") == "CXXThisExpr":
+                return {"Support": "sup1", "Grid": "gridthis"}.get(self.C.name)
+            return None
+        if k == "DeclRefExpr":
+            ref = n.get("referencedDecl") or {}
+            if ref.get("kind") == "ParmVarDecl" and ref.get("id") in env:
+                ok = env[ref["id"]][1]
+                if ok in ("sup1", "sup2", "vec", "grid"):
+                    return ok
+            return None
+        if k == "MemberExpr" and n.get("name") == GRID_FIELD and self.C.name == "Support":
+            base = self.only_child(n)
+            if base.get("kind") == "CXXThisExpr" and self.C.fields.get(n.get("referencedMemberDecl")) == GRID_FIELD:
+                return "gridfield"
+        return None
+
+    def own_grid(self, n, env):
+        """is `n` the grid of the object under construction (this->_grid, or the Grid parameter of a
+           static member)?"""
+        return self.object_of(n, env) in ("gridfield", "grid")
+
+    def check_hasSameGrid(self, at):
+        """hasSameGrid(s) must be `return _grid == s._grid;` — it is modelled by the parameter same_grid"""
+        if "hasSameGrid" in self.checked:
+            return
+        C = self.ctxs["Support"]
+        m = self.method(C, "hasSameGrid", at)
+        self.enter(C, "hasSameGrid")
+        try:
+            params, body = self.method_parts(m)
+            env, _, _ = self.bind_params(m, params)
+            todo = [s for s in body.get("inner", [])
+                    if not (s.get("kind") == "DoStmt" and self.is_empty_do_while_false(s))
+                    and s.get("kind") != "NullStmt"]
+            if len(todo) != 1 or todo[0].get("kind") != "ReturnStmt":
+                self.fail(todo[0] if todo else body, "hasSameGrid is not a single return statement")
+            e = self.only_child(todo[0])
+            while e.get("kind") in ("ParenExpr", "ExprWithCleanups"):
+                e = self.only_child(e)
+            inner = e.get("inner", [])
+            ok = (e.get("kind") == "CXXOperatorCallExpr" and len(inner) == 3
+                  and self.callee_decl(inner[0]).get("name") == "operator=="
+                  and self.object_of(inner[1], env) == "gridfield"
+                  and inner[2].get("kind") == "MemberExpr" and inner[2].get("name") == GRID_FIELD
+                  and C.fields.get(inner[2].get("referencedMemberDecl")) == GRID_FIELD
+                  and self.object_of(self.only_child(inner[2]), env) == "sup2")
+            if not ok:
+                self.fail(e, "hasSameGrid is not `return _grid == s._grid;`")
+        finally:
+            self.leave()
+        self.checked.add("hasSameGrid")
+
+    def check_grid_size(self, at):
+        """Grid::size() must be `return _data->size();` — it is modelled by the parameter gsize"""
+        if "Grid::size" in self.checked:
+            return
+        C = self.ctxs["Grid"]
+        m = self.method(C, "size", at)
+        self.enter(C, "size")
+        try:
+            params, body = self.method_parts(m)
+            todo = [s for s in body.get("inner", [])
+                    if not (s.get("kind") == "DoStmt" and self.is_empty_do_while_false(s))
+                    and s.get("kind") != "NullStmt"]
+            if params or len(todo) != 1 or todo[0].get("kind") != "ReturnStmt":
+                self.fail(todo[0] if todo else body, "Grid::size is not a single return statement")
+            e = self.only_child(todo[0])
+            while e.get("kind") in ("ParenExpr", "ExprWithCleanups") or \
+                    (e.get("kind") == "ImplicitCastExpr" and e.get("castKind") in ("NoOp", "IntegralCast")
+                     and self.kind_of_type(e) == "N"):
+                e = self.only_child(e)
+            ok = False
+            if e.get("kind") == "CXXMemberCallExpr" and len(e.get("inner", [])) == 1 \
+                    and self.kind_of_type(e) == "N":
+                callee = e["inner"][0]
+                if callee.get("kind") == "MemberExpr" and callee.get("name") == "size":
+                    arrow = self.only_child(callee)
+                    ai = arrow.get("inner", [])
+                    if arrow.get("kind") == "CXXOperatorCallExpr" and len(ai) == 2 \
+                            and self.callee_decl(ai[0]).get("name") == "operator->":
+                        d = ai[1]
+                        while d.get("kind") == "ImplicitCastExpr":
+                            d = self.only_child(d)
+                        if d.get("kind") == "MemberExpr" and C.fields.get(d.get("referencedMemberDecl")) == "_data" \
+                                and self.only_child(d).get("kind") == "CXXThisExpr" \
+                                and "std::vector<double>" in self.tyname(d):
+                            ok = True
+            if not ok:
+                self.fail(e, "Grid::size is not `return _data->size();`")
+        finally:
+            self.leave()
+        self.checked.add("Grid::size")
+
+    def callee_decl(self, n):
+        """the declaration a CallExpr / CXXOperatorCallExpr callee refers to"""
+        while n.get("kind") == "ImplicitCastExpr" and n.get("castKind") in ("FunctionToPointerDecay", "NoOp"):
+            n = self.only_child(n)
+        if n.get("kind") != "DeclRefExpr":
+            self.fail(n, "callee")
+        return n.get("referencedDecl") or {}
 
     # ---- expressions -------------------------------------------------------------------
     def expr_as(self, n, want, env):
@@ -582,15 +810,16 @@ class Translator:
             ref = n.get("referencedDecl") or {}
             if ref.get("kind") in ("ParmVarDecl", "VarDecl") and ref.get("id") in env:
                 g, vk = env[ref["id"]]
-                self.check_kind(n, vk)
-                return atom(g), vk
+                if vk in ("N", "bool"):
+                    self.check_kind(n, vk)
+                    return atom(g), vk
             self.fail(n, "reference to %s %r" % (ref.get("kind"), ref.get("name")))
         if k == "MemberExpr":
-            base = self.only_child(n)
-            if base.get("kind") == "CXXThisExpr" and n.get("name") in FIELDS \
-                    and self.fields.get(n.get("referencedMemberDecl")) == n.get("name"):
+            obj = self.object_of(self.only_child(n), env)
+            if obj in ("sup1", "sup2") and n.get("name") in FIELDS and self.C.name == "Support" \
+                    and self.C.fields.get(n.get("referencedMemberDecl")) == n.get("name"):
                 self.check_kind(n, "N")
-                return atom(FIELDS[n["name"]]), "N"
+                return atom(FIELDS[n["name"]][0 if obj == "sup1" else 1]), "N"
             self.fail(n, "member %r" % n.get("name"))
         if k == "UnaryOperator":
             op = n.get("opcode")
@@ -644,35 +873,88 @@ class Translator:
                 self.fail(n, "branches of kinds %s, %s" % (ka, kb))
             self.check_kind(n, ka)
             return ("if", c, a, b), ka
+        if k == "CallExpr":
+            return self.min_max(n, env)
         if k == "CXXMemberCallExpr":
-            inner = n.get("inner", [])
-            if not inner or inner[0].get("kind") != "MemberExpr":
-                self.fail(n, "callee")
-            callee, args = inner[0], inner[1:]
-            base = self.only_child(callee)
-            name = callee.get("name")
-            if base.get("kind") == "CXXThisExpr":
-                m = self.method(name, n)
-                if m.get("id") != callee.get("referencedMemberDecl"):
-                    self.fail(n, "call does not resolve to %s::%s" % (CLASS_NAME, name))
-                fn = self.translate(name, at=n)
-                if fn.throws:
-                    self.fail(n, "call of the throwing member function %s inside an expression" % name)
-                if fn.kind not in ("N", "bool"):
-                    self.fail(n, "call of %s, which returns kind %s" % (name, fn.kind))
-                if len(args) != len(fn.params):
-                    self.fail(n, "argument count")
-                targs = [self.expr_as(a, pk, env) for a, (_, pk) in zip(args, fn.params)]
-                self.check_kind(n, fn.kind)
-                return app(fn.gname, atom("gsize"), atom("start"), atom("stop"), *targs), fn.kind
-            if (base.get("kind") == "MemberExpr" and base.get("name") == GRID_FIELD
-                    and self.fields.get(base.get("referencedMemberDecl")) == GRID_FIELD
-                    and self.only_child(base).get("kind") == "CXXThisExpr"
-                    and name == "size" and not args):
-                self.check_kind(n, "N")
-                return atom("gsize"), "N"
-            self.fail(n, "member call %r" % name)
+            return self.member_call(n, env)
         self.fail(n, "expression")
+
+    def min_max(self, n, env):
+        """std::min / std::max on two size_t values"""
+        inner = n.get("inner", [])
+        if len(inner) != 3:
+            self.fail(n, "call with %d arguments" % (len(inner) - 1))
+        ref = self.callee_decl(inner[0])
+        name = ref.get("name")
+        sig = (ref.get("type") or {}).get("qualType")
+        off = self.offset_of(inner[0])
+        spelled = self.C.src[off:off + len("std::") + 3].decode("utf-8", "replace") if off is not None else ""
+        if ref.get("kind") != "FunctionDecl" or name not in ("min", "max") \
+                or sig != "const unsigned long &(const unsigned long &, const unsigned long &)" \
+                or spelled != "std::" + name:
+            self.fail(n, "call of %r (only std::min / std::max on size_t are understood)" % name)
+        a = self.expr_as(inner[1], "N", env)
+        b = self.expr_as(inner[2], "N", env)
+        self.check_kind(n, "N")
+        return app("N." + name, a, b), "N"
+
+    def member_call(self, n, env):
+        inner = n.get("inner", [])
+        if not inner or inner[0].get("kind") != "MemberExpr":
+            self.fail(n, "callee")
+        callee, args = inner[0], inner[1:]
+        base = self.only_child(callee)
+        name = callee.get("name")
+        obj = self.object_of(base, env)
+        if obj in ("sup1", "sup2"):
+            S = self.ctxs["Support"]
+            if name == "hasSameGrid":
+                if obj != "sup1" or len(args) != 1 or self.object_of(args[0], env) != "sup2" \
+                        or self.C.name != "Support":
+                    self.fail(n, "hasSameGrid is understood only as hasSameGrid(<the other operand>)")
+                if self.method(S, name, n).get("id") != callee.get("referencedMemberDecl"):
+                    self.fail(n, "call does not resolve to Support::hasSameGrid")
+                self.check_hasSameGrid(n)
+                self.check_kind(n, "bool")
+                return atom("same_grid"), "bool"
+            m = self.method(S, name, n)
+            if self.C.name == "Support":
+                if m.get("id") != callee.get("referencedMemberDecl"):
+                    self.fail(n, "call does not resolve to Support::%s" % name)
+            elif self.tyname(base) not in SUPPORT_TYPES:
+                self.fail(n, "receiver of type %r" % self.tyname(base))
+            fn = self.translate("Support", name, at=n)
+            if not fn.plain:
+                self.fail(n, "call of %s, whose parameters are not plain integers" % name)
+            if fn.throws:
+                self.fail(n, "call of the throwing member function %s inside an expression" % name)
+            if fn.kind not in ("N", "bool"):
+                self.fail(n, "call of %s, which returns kind %s" % (name, fn.kind))
+            if len(args) != len(fn.params):
+                self.fail(n, "argument count")
+            targs = [self.expr_as(a, pk, env) for a, (_, pk) in zip(args, fn.params)]
+            self.check_kind(n, fn.kind)
+            if obj == "sup1":
+                if fn.uses_gsize:
+                    self.use_gsize()
+                return app(fn.gname, atom("gsize"), atom("start"), atom("stop"), *targs), fn.kind
+            if fn.uses_gsize:
+                self.fail(n, "%s reads the grid size of the other operand, which is not a parameter" % name)
+            # fn ignores its first argument (checked just above), so passing gsize is sound
+            return app(fn.gname, atom("gsize"), atom("start2"), atom("stop2"), *targs), fn.kind
+        if obj == "gridfield" and name == "size" and not args:
+            self.check_kind(n, "N")
+            return self.use_gsize(), "N"
+        if obj == "gridthis" and name == "size" and not args:
+            if self.method(self.C, "size", n).get("id") != callee.get("referencedMemberDecl"):
+                self.fail(n, "call does not resolve to Grid::size")
+            self.check_grid_size(n)
+            self.check_kind(n, "N")
+            return self.use_gsize(), "N"
+        if obj == "vec" and name == "size" and not args:
+            self.check_kind(n, "N")
+            return atom("ncoefs"), "N"
+        self.fail(n, "member call %r" % name)
 
     def optional(self, n, env):
         """an expression of type std::optional<size_t>  ->  Some e | None"""
@@ -713,149 +995,237 @@ class Translator:
             return True
         self.fail(a, "value of type std::nullopt_t")
 
-    # ---- the two special shapes --------------------------------------------------------
-    def translate_valid(self):
-        """checkValidity as a predicate: true iff the function returns normally"""
-        cname = "checkValidity"
-        m = self.method(cname)
-        self.active.append(cname)
+    def support_value(self, n, env):
+        """an expression of type Support<double>, by value  ->  gres"""
+        k = n.get("kind")
+        if k in ("ExprWithCleanups", "CXXBindTemporaryExpr", "MaterializeTemporaryExpr", "ParenExpr",
+                 "CXXFunctionalCastExpr") \
+                or (k == "ImplicitCastExpr" and n.get("castKind") in ("ConstructorConversion", "NoOp")):
+            return self.support_value(self.only_child(n), env)
+        if self.kind_of_type(n) != "sup":
+            self.fail(n, "expected a Support value, got type %r" % self.tyname(n))
+        if k == "ConditionalOperator":
+            inner = n.get("inner", [])
+            if len(inner) != 3:
+                self.fail(n)
+            return ("if", self.expr_as(inner[0], "bool", env),
+                    self.support_value(inner[1], env), self.support_value(inner[2], env))
+        if k == "CallExpr":
+            inner = n.get("inner", [])
+            ref = self.callee_decl(inner[0]) if inner else {}
+            S = self.ctxs["Support"]
+            if self.C.name == "Support" and ref.get("kind") == "CXXMethodDecl" and ref.get("name") == "createEmpty" \
+                    and ref.get("id") == self.method(S, "createEmpty", n).get("id") \
+                    and len(inner) == 2 and self.own_grid(inner[1], env):
+                fn = self.translate("Support", "createEmpty", at=n)
+                if fn.binders or fn.kind != "sup":
+                    self.fail(n, "createEmpty is not a static member returning a Support")
+                return atom("GEmpty")
+            self.fail(n, "call of %r returning a Support" % ref.get("name"))
+        if k in ("CXXConstructExpr", "CXXTemporaryObjectExpr"):
+            args = n.get("inner", [])
+            if len(args) == 1:        # copy / move construction
+                o = self.object_of(args[0], env)
+                if o == "sup1" and self.C.name == "Support":
+                    return atom("GThis")
+                if o == "sup2":
+                    return atom("GOther")
+                if self.kind_of_type(args[0]) == "sup":
+                    return self.support_value(args[0], env)
+                self.fail(args[0], "copied Support object")
+            if len(args) == 3:        # Support(grid, startIndex, endIndex): the validating constructor
+                ct = (n.get("ctorType") or {}).get("qualType", "")
+                if not self.own_grid(args[0], env) or not ct.startswith("void (const Grid<double> &, "):
+                    self.fail(n, "Support constructed on a grid other than its own (constructor %r)" % ct)
+                a = self.expr_as(args[1], "N", env)
+                b = self.expr_as(args[2], "N", env)
+                return app("GCtor", a, b)
+            self.fail(n, "Support constructed from %d arguments" % len(args))
+        self.fail(n, "Support-valued expression")
+
+    # ---- the special shapes ------------------------------------------------------------
+    def translate_valid(self, cls, cname, gname, nparams):
+        """a void checking function as a predicate: true iff the function returns normally"""
+        C = self.ctxs[cls]
+        m = self.method(C, cname, nparams=nparams)
+        self.enter(C, cname)
         try:
             params, body = self.method_parts(m)
-            if params:
-                self.fail(m, "checkValidity with parameters")
+            env, own, binders = self.bind_params(m, params)
             if not self.contains_kind(body, "CXXThrowExpr"):
-                self.fail(m, "checkValidity never throws")
+                self.fail(m, "%s never throws" % cname)
             ctx = {"kind": "unit", "throws": True, "mode": "nothrow"}
-            term = self.stmts([body], {}, ctx)
+            term = self.stmts([body], env, ctx)
         finally:
-            self.active.pop()
-        fn = Fn(cname, "valid", [], "bool", False, term, m)
+            used = self.leave()
+        fn = Fn(C, cname, gname, binders, own, "bool", False, term, m, uses_gsize=used)
         self.order.append(fn)
         return fn
 
+    def guard_shape(self, cls, cname):
+        """[do{}while(false);]* if (GUARD) throw E(CODE); return ...;   (inside enter/leave)"""
+        C = self.ctxs[cls]
+        m = self.method(C, cname)
+        params, body = self.method_parts(m)
+        env, own, binders = self.bind_params(m, params)
+        todo = [s for s in body.get("inner", [])
+                if not (s.get("kind") == "DoStmt" and self.is_empty_do_while_false(s))
+                and s.get("kind") != "NullStmt"]
+        if len(todo) != 2 or todo[0].get("kind") != "IfStmt" or todo[1].get("kind") != "ReturnStmt":
+            self.fail(todo[0] if todo else body,
+                      "body of %s() is not `if (guard) throw ...; return ...;`" % cname)
+        ifs, ret = todo
+        for bad in ("hasInit", "hasVar", "hasElse", "isConstexpr"):
+            if ifs.get(bad):
+                self.fail(ifs, bad)
+        inner = ifs.get("inner", [])
+        if len(inner) != 2:
+            self.fail(ifs)
+        guard = self.expr_as(inner[0], "bool", env)
+        th = inner[1]
+        while th.get("kind") == "CompoundStmt":
+            th = self.only_child(th)
+        code = self.throw_code(th)
+        return m, env, own, binders, guard, code, ret
+
     def translate_at(self):
-        """at(index): [do{}while(false);]* if (GUARD) throw E(CODE); return _grid.at(INDEX);"""
-        cname = "at"
-        m = self.method(cname)
-        self.active.append(cname)
+        """Support::at(index): ... return _grid.at(INDEX);"""
+        C = self.ctxs["Support"]
+        self.enter(C, "at")
         try:
-            params, body = self.method_parts(m)
-            env, binders = self.bind_params(params)
-            todo = []
-            for s in body.get("inner", []):
-                if s.get("kind") == "DoStmt" and self.is_empty_do_while_false(s):
-                    continue
-                if s.get("kind") == "NullStmt":
-                    continue
-                todo.append(s)
-            if len(todo) != 2 or todo[0].get("kind") != "IfStmt" or todo[1].get("kind") != "ReturnStmt":
-                self.fail(todo[0] if todo else body,
-                          "body of at() is not `if (guard) throw ...; return _grid.at(...);`")
-            ifs, ret = todo
-            for bad in ("hasInit", "hasVar", "hasElse", "isConstexpr"):
-                if ifs.get(bad):
-                    self.fail(ifs, bad)
-            inner = ifs.get("inner", [])
-            if len(inner) != 2:
-                self.fail(ifs)
-            guard = self.expr_as(inner[0], "bool", env)
-            th = inner[1]
-            while th.get("kind") == "CompoundStmt":
-                th = self.only_child(th)
-            code = self.throw_code(th)
+            m, env, own, binders, guard, code, ret = self.guard_shape("Support", "at")
             call = self.only_child(ret)
             while call.get("kind") in ("ParenExpr", "ExprWithCleanups"):
                 call = self.only_child(call)
             ok = False
             if call.get("kind") == "CXXMemberCallExpr" and len(call.get("inner", [])) == 2:
                 callee, a = call["inner"]
-                if (callee.get("kind") == "MemberExpr" and callee.get("name") == "at"):
-                    base = self.only_child(callee)
-                    if (base.get("kind") == "MemberExpr" and base.get("name") == GRID_FIELD
-                            and self.fields.get(base.get("referencedMemberDecl")) == GRID_FIELD
-                            and self.only_child(base).get("kind") == "CXXThisExpr"):
-                        ok = True
+                if callee.get("kind") == "MemberExpr" and callee.get("name") == "at" \
+                        and self.object_of(self.only_child(callee), env) == "gridfield":
+                    ok = True
             if not ok:
                 self.fail(call, "at() does not end in `return _grid.at(<index>)`")
             index = self.expr_as(a, "N", env)
         finally:
-            self.active.pop()
-        out = [Fn(cname, "at_guard", binders, "bool", False, guard, m),
-               Fn(cname, "at_throw", [], "err", False, atom(code), m),
-               Fn(cname, "at_index", binders, "N", False, index, m)]
+            self.leave()
+        out = [Fn(C, "at", "at_guard", binders, own, "bool", False, guard, m),
+               Fn(C, "at", "at_throw", OBJ3, [], "err", False, atom(code), m),
+               Fn(C, "at", "at_index", binders, own, "N", False, index, m)]
+        self.order.extend(out)
+        return out
+
+    def translate_grid_at(self):
+        """Grid::at(i): the guard and the code; the final `return (*_data)[i];` is not integer logic"""
+        C = self.ctxs["Grid"]
+        self.enter(C, "at")
+        try:
+            m, env, own, binders, guard, code, ret = self.guard_shape("Grid", "at")
+        finally:
+            self.leave()
+        out = [Fn(C, "at", "grid_at_guard", binders, own, "bool", False, guard, m),
+               Fn(C, "at", "grid_at_throw", [], [], "err", False, atom(code), m)]
         self.order.extend(out)
         return out
 
     # ---- output ------------------------------------------------------------------------
-    def source_text(self, m):
-        r = m.get("range") or {}
-        b, e = r.get("begin") or {}, r.get("end") or {}
-        for p in (b, e):
-            if "offset" not in p or "expansionLoc" in p or "spellingLoc" in p:
-                self.fail(m, "source range of the member function")
-        lo, hi = b["offset"], e["offset"] + e.get("tokLen", 1)
-        f = (m.get("loc") or {}).get("file") or b.get("file")
-        if f is not None and os.path.realpath(f) != os.path.realpath(self.hdr_path):
-            self.fail(m, "member function defined in %s" % f)
-        raw = self.src[lo:hi].decode("utf-8", "replace")
-        if (m.get("name", "") + "(") not in raw.replace(" (", "(") or not raw.rstrip().endswith("}"):
-            self.fail(m, "source range does not look like the definition of %s" % m.get("name"))
-        l0 = self.src.count(b"\n", 0, lo) + 1
-        l1 = self.src.count(b"\n", 0, hi) + 1
-        col = lo - (self.src.rfind(b"\n", 0, lo) + 1)
+    def source_text(self, C, m):
+        self.active.append((C, m.get("name", "?")))
+        try:
+            r = m.get("range") or {}
+            b, e = r.get("begin") or {}, r.get("end") or {}
+            for p in (b, e):
+                if "offset" not in p or "expansionLoc" in p or "spellingLoc" in p:
+                    self.fail(m, "source range of the member function")
+            lo, hi = b["offset"], e["offset"] + e.get("tokLen", 1)
+            f = (m.get("loc") or {}).get("file") or b.get("file")
+            if f is not None and os.path.realpath(f) != os.path.realpath(C.hdr_path):
+                self.fail(m, "member function defined in %s" % f)
+            raw = C.src[lo:hi].decode("utf-8", "replace")
+            if (m.get("name", "") + "(") not in raw.replace(" (", "(").replace("(\n", "(") \
+                    or not raw.rstrip().endswith("}"):
+                self.fail(m, "source range does not look like the definition of %s" % m.get("name"))
+        finally:
+            self.active.pop()
+        l0 = C.src.count(b"\n", 0, lo) + 1
+        l1 = C.src.count(b"\n", 0, hi) + 1
+        col = lo - (C.src.rfind(b"\n", 0, lo) + 1)
         lines = (" " * col + raw).split("\n")
         strip = min((len(x) - len(x.lstrip()) for x in lines if x.strip()), default=0)
         text = "\n".join("    " + x[strip:].rstrip() for x in lines)
         text = text.replace("(*", "( *").replace("*)", "* )").replace('"', "''")
         return l0, l1, text
 
+    @staticmethod
+    def render_binders(binders):
+        groups = []
+        for g, k in binders:
+            if groups and groups[-1][1] == k:
+                groups[-1][0].append(g)
+            else:
+                groups.append(([g], k))
+        return " ".join("(%s : %s)" % (" ".join(gs), BASE_TY[k]) for gs, k in groups)
+
     def render(self):
         out = []
-        out.append("(* SupportGen.v — GENERATED by gen/ast2coq.py from include/%s (clang JSON AST of\n"
-                   "   Support<double>) on every run; do not edit.  size_t arithmetic is wadd/wsub (mod 2^64).\n"
-                   "   Parameters: gsize = _grid.size(), start = _startIndex, stop = _endIndex. *)"
-                   % HEADER_REL.replace(os.sep, "/"))
+        out.append("(* SupportGen.v — GENERATED by gen/ast2coq.py on every run from the clang JSON AST of\n"
+                   "   Support<double> (include/%s), Grid<double>::at (include/%s) and\n"
+                   "   Spline<double,2>::checkValidity (include/%s); do not edit.\n"
+                   "   size_t arithmetic is wadd/wsub (mod 2^64).  Parameters: gsize = _grid.size(),\n"
+                   "   start = _startIndex, stop = _endIndex; start2, stop2 = the indices of a second operand s,\n"
+                   "   same_grid = hasSameGrid(s); ncoefs = coefficients.size(). *)"
+                   % tuple(CLASSES[c][0].replace(os.sep, "/") for c in ("Support", "Grid", "Spline")))
         out.append("From Coq Require Import NArith Bool.")
         out.append("From BSpl Require Import Outcome Support.")
         out.append("Local Open Scope N_scope.")
         out.append("")
         out.append("Module G.")
+        out.append("")
+        out.append("(* what a Support-valued member function returns, as far as the indices are concerned:\n"
+                   "   throw e | createEmpty(_grid) | *this | the other operand | Support(_grid, a, b) *)")
+        out.append(GRES)
         last_src = None
         for fn in self.order:
-            l0, l1, text = self.source_text(fn.node)
+            l0, l1, text = self.source_text(fn.C, fn.node)
             out.append("")
             if last_src != fn.node.get("id"):
-                out.append("(* %s::%s — %s:%d-%d\n%s\n*)" % (CLASS_NAME, fn.cname,
-                                                           os.path.basename(HEADER_REL), l0, l1, text))
+                out.append("(* %s::%s — %s:%d-%d\n%s\n*)" % (fn.C.name, fn.cname,
+                                                           os.path.basename(fn.C.rel), l0, l1, text))
             else:
-                out.append("(* %s::%s — same source as above *)" % (CLASS_NAME, fn.cname))
+                out.append("(* %s::%s — same source as above *)" % (fn.C.name, fn.cname))
             last_src = fn.node.get("id")
             ty = BASE_TY[fn.kind]
             if fn.throws:
                 ty = "outcome " + (ty if " " not in ty else "(" + ty + ")")
-            names = ["gsize", "start", "stop"] + [g for g, k in fn.params if k == "N"]
-            binders = "(%s : N)" % " ".join(names) if all(k == "N" for _, k in fn.params) else \
-                "(gsize start stop : N) " + " ".join("(%s : %s)" % (g, BASE_TY[k]) for g, k in fn.params)
-            out.append("Definition %s %s : %s :=\n  %s." % (fn.gname, binders, ty, block(fn.body, "  ")))
+            b = self.render_binders(fn.binders)
+            out.append("Definition %s%s : %s :=\n  %s." % (fn.gname, " " + b if b else "", ty,
+                                                          block(fn.body, "  ")))
         out.append("")
         out.append("End G.")
         return "\n".join(out) + "\n"
 
 
 def generate(repo):
-    text, hdr = run_clang(repo)
-    spec = find_specialization(parse_objects(text))
-    tr = Translator(spec, hdr)
+    texts = run_clang(repo)
+    ctxs = {}
+    for cls in ("Support", "Grid", "Spline"):
+        rel, targs = CLASSES[cls]
+        spec = find_specialization(parse_objects(texts[cls]), cls, targs)
+        ctxs[cls] = ClassCtx(cls, spec, os.path.join(repo, "include", rel), rel.replace(os.sep, "/"))
+    tr = Translator(ctxs)
     for cname, gname in PLAIN:
-        tr.translate(cname, gname)
-    tr.translate_valid()
-    tr.translate("checkValidity", "checkValidity")
+        tr.translate("Support", cname, gname)
+    tr.translate_valid("Support", "checkValidity", "valid", 0)
+    tr.translate("Support", "checkValidity", "checkValidity", nparams=0)
     tr.translate_at()
-    want = [g for _, g in PLAIN] + ["valid", "checkValidity", "at_guard", "at_throw", "at_index"]
+    for cname, gname in BINARY:
+        tr.translate("Support", cname, gname)
+    tr.translate_grid_at()
+    tr.translate_valid("Spline", "checkValidity", "spline_valid", 2)
+    tr.translate("Spline", "checkValidity", "spline_checkValidity", nparams=2)
     got = [fn.gname for fn in tr.order]
-    if sorted(got) != sorted(want) or len(set(got)) != len(got):
+    if sorted(got) != sorted(EXPECTED) or len(set(got)) != len(got):
         raise Unsupported("generated definitions %s differ from the expected set %s "
-                          "(a translated function calls a member function outside the set?)" % (got, want))
+                          "(a translated function calls a member function outside the set?)" % (got, EXPECTED))
     return tr.render()
 
 
@@ -901,7 +1271,7 @@ def main(argv):
         status = "unchanged"
     if do_print:
         sys.stdout.write(text)
-    sys.stderr.write("ast2coq: %s %s (from %s)\n" % (path, status, os.path.join(repo, "include", HEADER_REL)))
+    sys.stderr.write("ast2coq: %s %s (from %s)\n" % (path, status, os.path.join(repo, "include")))
     return 0
 
 
